@@ -32,7 +32,7 @@ func init() {
 		Rule: "stateless model checking of the real implementation under a cooperative scheduler: 2 goroutines (thorough: also 3) sanitise different short inputs on ONE finished policy built with three overlapping element patterns carrying attribute and style rules, global / element / pattern style rules, a custom URL check, a src rewriter and link options; " +
 			"scheduling points = every statement of package bluemonday and function entries / loop heads of package css (overlay); depth-first search over choice sequences with iterative preemption bounding (quick: c<=2 on two input pairs and c<=1 on four more; thorough: c<=2 on all six pairs, three goroutines at c<=2, two calls per goroutine at c<=2, c<=3 and map orders combined with c<=2 on a pair of very short inputs); executions always run to completion; " +
 			"in a second exploration every execution of a `range` over a map is a choice among all permutations of its keys (deviation bound 2 from sorted order, alone and combined with <=1 preemption). " +
-			"Oracle per execution: every call returns exactly the sequential result, repeated calls agree, and sanitising does not change later behaviour: the deep snapshot of the policy object graph is compared before and after every execution (package-level variables every 32nd) and, if it changed, the used policy must still agree with a fresh one on 11 probe documents (an object change without behaviour change is noted in the evidence, not reported). A recorded schedule is replayed twice and must reproduce the same point trace. " +
+			"Before anything else, in the fresh process: after a warm-up of calls on the shared policy, fresh instances of two other policies must reproduce the probe outputs they gave before (results do not depend on earlier calls on another policy). Oracle per execution: every call returns exactly the sequential result, repeated calls agree, and sanitising does not change later behaviour: the deep snapshot of the policy object graph is compared before and after every execution (package-level variables every 32nd) and, if it changed, the used policy must still agree with a fresh one on 11 probe documents (an object change without behaviour change is noted in the evidence, not reported). A recorded schedule is replayed twice and must reproduce the same point trace. " +
 			"Separately (outside the family, because a cooperative scheduler's hand-offs are happens-before edges): the same bodies run free under Go's race detector, 4 goroutines x 2000 iterations. " +
 			"states = scheduling / map-order choice points visited, transitions = complete executions; non-trivial = executions with at least one preemption or one non-sorted map order.",
 		Assumptions: []string{
@@ -63,6 +63,7 @@ func c13Spec() spec.Spec {
 		{Op: "AllowURLSchemes", Names: []string{"https"}},
 		{Op: "AllowURLSchemeWithCustomPolicy", Names: []string{"http"}, Fn: "host-example.org"},
 		opt("AllowRelativeURLs", true),
+		{Op: "AllowURLSchemesMatching", Re: `^(tel|web\+[a-z]+)$`},
 		{Op: "RewriteSrc", Fn: "proxy"},
 		opt("RequireNoFollowOnLinks", true), opt("AddTargetBlankToFullyQualifiedLinks", true),
 	}}
@@ -460,7 +461,62 @@ func compress(ch []int) string {
 	return "[" + strings.Join(parts, " ") + "] of " + fmt.Sprint(len(ch))
 }
 
+// Other policies, used to check that calls on one policy never change what another policy does.
+func c13OtherSpecs() []spec.Spec {
+	return []spec.Spec{
+		{Name: "c13-other-https-only", Base: "new", Calls: []C{attrsOn([]string{"href"}, "", "a"), attrsOn([]string{"src"}, "", "img"), {Op: "AllowURLSchemes", Names: []string{"https"}},
+			{Op: "AllowElementsMatching", Re: `^zz-[a-z]+$`}, {Op: "AllowStyles", Names: []string{"color"}, Enum: []string{"green"}, Scope: "matching", OnRe: `^zz-[a-z]+$`}, attrsGlob([]string{"style"}, "")}},
+		{Name: "ugc", Base: "ugc"},
+	}
+}
+
+var c13CrossProbes = []string{
+	`<a href="tel:123">t</a><a href="web+app:x">w</a><a href="https://e.x/">h</a><a href="http://example.org/">o</a><img src="tel:1">`,
+	`<my-y id=b style="width: 7px; color: red">y</my-y><zz-a id=a style="color: green; width: 5px">z</zz-a><p style="color: red">p</p>`,
+	`<img src="https://e.x/i.png"><a href="/rel" rel="x">r</a><b>b</b>`,
+}
+
+// c13WarmUp runs, sequentially, inputs that exercise every cache-worthy path of the shared policy.
+var c13WarmUp = []string{
+	`<a href="tel:123">t</a><a href="web+app:x">w</a><a href="http://example.org/">o</a><img src="tel:5">`,
+	`<my-xy id=a name=7 title=t style="width: 5px; height: 1px; color: blue">t</my-xy><zz-a style="color: red">z</zz-a>`,
+}
+
+// crossPolicyDiff: reference vectors of the other policies first (pristine process), then the shared policy is
+// used, then fresh instances of the other policies must still give the reference vectors.
+func crossPolicyDiff(extra func(p *bluemonday.Policy)) string {
+	others := c13OtherSpecs()
+	refs := make([][]string, len(others))
+	for i, s := range others {
+		refs[i], _ = probeVector(spec.Build(s), c13CrossProbes)
+	}
+	shared := spec.Build(c13Spec())
+	for _, in := range append(append([]string{}, c13WarmUp...), c13Inputs...) {
+		San(shared, in)
+	}
+	if extra != nil {
+		extra(shared)
+	}
+	for i, s := range others {
+		now, _ := probeVector(spec.Build(s), c13CrossProbes)
+		if j := firstDiff(refs[i], now); j >= 0 {
+			return fmt.Sprintf("after calls on another policy, a fresh %s policy turns probe %s into %s instead of %s", s.Name, run.Q(c13CrossProbes[j]), run.Q(now[j]), run.Q(refs[i][j]))
+		}
+	}
+	return ""
+}
+
 func runC13(c *run.Ctx) {
+	// first thing in this (fresh) process: calls on one policy do not change what other policies do
+	if c.Shard == 0 {
+		c.Eval()
+		if d := crossPolicyDiff(nil); d != "" {
+			c.Violate("cross-policy", "results depend on earlier calls on a different policy: "+d, c13Case{Inputs: c13WarmUp, Calls: -2})
+			c.Outcome("violation|cross-policy")
+		} else {
+			c.Outcome("other-policies-unaffected")
+		}
+	}
 	if !hooks.Available {
 		c.Cap("binary built without the instrumentation overlay: no scheduling points; only the sequential determinism probe ran")
 	}
@@ -622,6 +678,10 @@ func RaceBody() int {
 func replayC13(raw json.RawMessage) (bool, string) {
 	var x c13Case
 	json.Unmarshal(raw, &x)
+	if x.Calls == -2 {
+		d := crossPolicyDiff(nil)
+		return d != "", d
+	}
 	if x.Calls < 0 {
 		rb := os.Getenv("VERIF_RACE_BIN")
 		if rb == "" {
